@@ -100,8 +100,8 @@ pub fn check(s: &Scenario) -> CheckResult {
                 last_dt = None;
             }
             Ev::E(e) => {
-                ensure!(outs[i] == Obs::Err(*e as i32), "C04/error-output", "event {}: input Err({}) but get() = {:?}", i, e, outs[i]);
-                ensure!(rets[i] == Err(*e as i32), "C04/error-return", "event {}: input Err({}) but update() returned {:?}", i, e, rets[i]);
+                ensure!(outs[i] == Obs::Err(exp_code(*e)), "C04/error-output", "event {}: input Err({}) but get() = {:?}", i, e, outs[i]);
+                ensure!(rets[i] == Err(exp_code(*e)), "C04/error-return", "event {}: input Err({}) but update() returned {:?}", i, e, rets[i]);
                 prev = None;
                 integral = R::ZERO;
                 seg_len = 0;
@@ -152,10 +152,12 @@ pub fn check(s: &Scenario) -> CheckResult {
         }
     }
     // (i) time-shift invariance, exact
-    let times2: Vec<i64> = times.iter().map(|t| t + s.shift).collect();
+    // shift towards zero so that extreme start times cannot overflow
+    let shift = if s.t0 > 0 { -s.shift.abs() } else { s.shift.abs() };
+    let times2: Vec<i64> = times.iter().map(|t| t + shift).collect();
     let (outs2, _) = run_real(s.k, s.setpoint, &s.events, &times2);
     for i in 0..outs.len() {
-        ensure!(outs2[i].same(&outs[i].shifted(s.shift)), "C04/time-shift", "event {}: shifting all timestamps by {} changes the output from {:?} to {:?}", i, s.shift, outs[i], outs2[i]);
+        ensure!(outs2[i].same(&outs[i].shifted(shift)), "C04/time-shift", "event {}: shifting all timestamps by {} changes the output from {:?} to {:?}", i, shift, outs[i], outs2[i]);
     }
     // (ii) power-of-two scaling, exact
     let f = (2.0f32).powi(s.scale as i32);
@@ -247,6 +249,13 @@ impl Property for C04 {
     }
     fn check(s: &Scenario) -> CheckResult {
         check(s)
+    }
+    fn valid(s: &Scenario) -> bool {
+        s.k.iter().all(|x| dom::moderate(*x)) && dom::moderate(s.setpoint) && dom::t0_span(s.t0) && s.shift.abs() <= 1_000_000_000_000_000 && (-8..=8).contains(&s.scale) && (1..=64).contains(&s.events.len()) && s.events.iter().all(|e| match e {
+            Ev::P(v, dt) => dom::moderate(*v) && dom::dt_pos(*dt),
+            Ev::A => true,
+            Ev::E(c) => *c <= 2,
+        })
     }
     fn extra_coverage() -> std::collections::BTreeMap<String, serde_json::Value> {
         let mut m = std::collections::BTreeMap::new();
